@@ -24,6 +24,8 @@ pub const SLACK: i64 = 1024 * 1024;
 /// per-direction buffer (64 KiB) costs the parsers ~17x its size in temporary allocations (lossy
 /// UTF-8 views, line vectors, frame copies - measured 17x..21x depending on the bytes); 4 MiB is about 3x that plateau
 pub const A_CONST: u64 = 4 * 1024 * 1024;
+/// CPU time one packet may cost (thread CPU clock): 50 ms - healthy is well under 1 ms
+const T_PER_PACKET_NS: u64 = 50_000_000;
 /// per-byte part of the per-packet work bound
 pub const B_PER_BYTE: u64 = 64;
 
@@ -49,6 +51,9 @@ pub enum Traffic {
     WrongKindThenEndless,
     /// contrast: a connection that completes (HTTP exchange / ClientHello) and then keeps sending
     Completing,
+    /// an HTTP request head that never ends and consists of folded continuation lines (obs-fold: lines that
+    /// start with a space or a tab), thousands of them
+    EndlessFoldedHead,
 }
 
 #[derive(Clone, Debug, Serialize, Deserialize)]
@@ -122,6 +127,14 @@ fn stream_of(c: &LongConn) -> Stream {
     let total = c.seg_size * c.n_segs;
     match c.traffic {
         Traffic::EndlessHttpHead => Stream { bytes: http1::endless_head(&mut r, total), from_client: true, syn: true },
+        Traffic::EndlessFoldedHead => {
+            let mut s = String::from("GET /folded HTTP/1.1\r\nHost: folded.example.test\r\nX-Long: a\r\n");
+            while s.len() < total {
+                s.push_str(if r.chance(1, 2) { " a\r\n" } else { "\tbcd\r\n" });
+            }
+            s.truncate(total.max(40));
+            Stream { bytes: s.into_bytes(), from_client: true, syn: true }
+        }
         Traffic::EndlessHttpResponseHead => {
             let mut s = String::from("HTTP/1.1 200 OK\r\nServer: endless\r\n");
             while s.len() < total {
@@ -229,7 +242,7 @@ impl Prop for C11 {
             let traffic = match kind {
                 Kind::Tls => *r.pick(&[Traffic::TlsHugeDeclared, Traffic::TlsManyNonHelloRecords, Traffic::TlsManyNonHelloRecords, Traffic::TlsAppDataAfterNonHello, Traffic::TlsAppDataAfterNonHello, Traffic::BinaryAfterSyn, Traffic::RandomNoSyn, Traffic::Completing]),
                 Kind::Tcp => *r.pick(&[Traffic::BinaryAfterSyn, Traffic::EndlessHttpHead, Traffic::RandomNoSyn, Traffic::Completing]),
-                _ => *r.pick(&[Traffic::EndlessHttpHead, Traffic::TlsManyNonHelloRecords, Traffic::WrongKindThenEndless, Traffic::WrongKindThenEndless, Traffic::EndlessHttpResponseHead, Traffic::BinaryAfterSyn, Traffic::TlsHugeDeclared, Traffic::TlsAppDataAfterNonHello, Traffic::RandomNoSyn, Traffic::Completing]),
+                _ => *r.pick(&[Traffic::EndlessHttpHead, Traffic::EndlessFoldedHead, Traffic::TlsManyNonHelloRecords, Traffic::WrongKindThenEndless, Traffic::WrongKindThenEndless, Traffic::EndlessHttpResponseHead, Traffic::BinaryAfterSyn, Traffic::TlsHugeDeclared, Traffic::TlsAppDataAfterNonHello, Traffic::RandomNoSyn, Traffic::Completing]),
             };
             let n_segs = match tier {
                 Tier::Quick => *r.pick(&[200usize, 600, 1000, 2000]),
@@ -301,6 +314,7 @@ impl Prop for C11 {
         let mut delivered = 0usize;
         let mut live_max: i64 = 0;
         let mut alloc_max: u64 = 0;
+        let mut cpu_max: u64 = 0;
         st.evals = 0;
         loop {
             let mut progressed = false;
@@ -328,8 +342,11 @@ impl Prop for C11 {
                     st.fault("idle_beyond_ttl");
                 }
                 let before = alloc::snap();
+                let cpu0 = thread_cpu_ns();
                 let out = sut.deliver(&frame);
+                let cpu_i = thread_cpu_ns() - cpu0;
                 let after = alloc::snap();
+                cpu_max = cpu_max.max(cpu_i);
                 let has_result = out.obs.iter().any(|o| matches!(o.kind.as_str(), "http_request" | "http_response" | "tls"));
                 drop(out);
                 let after_drop = alloc::snap();
@@ -350,6 +367,12 @@ impl Prop for C11 {
                 let key = format!("{}:{:?}", s.kind.name(), c.traffic);
                 if live_i > live_bound {
                     return Err(Violation::new("retained-memory", key, format!("after segment {} of connection {} ({:?}, {} B segments): analyzer retains {} KiB above its baseline; bound {} connections x 512 KiB + 1 MiB = {} KiB", k, ci, c.traffic, c.seg_size, live_i / 1024, n_conn.min(s.cap.max(1) as i64), live_bound / 1024)));
+                }
+                // time: handling one packet against at most 64 KiB of buffered stream takes a fraction of a millisecond;
+                // a cost that multiplies what the connection has sent by how many lines it has sent reaches hundreds.
+                // The bound leaves two orders of magnitude to the healthy figure.
+                if cpu_i > T_PER_PACKET_NS {
+                    return Err(Violation::new("per-packet-time", key, format!("segment {} of connection {} ({:?}, {} B payload): handling it took {} ms of CPU; bound {} ms", k, ci, c.traffic, b - a, cpu_i / 1_000_000, T_PER_PACKET_NS / 1_000_000)));
                 }
                 if alloc_i > A_CONST + B_PER_BYTE * frame.len() as u64 {
                     return Err(Violation::new("per-packet-work", key, format!("segment {} of connection {} ({:?}, {} B payload): handling it allocated {} KiB; bound 4 MiB + 64 x {} B = {} KiB", k, ci, c.traffic, b - a, alloc_i / 1024, frame.len(), (A_CONST + B_PER_BYTE * frame.len() as u64) / 1024)));
@@ -394,6 +417,7 @@ impl Prop for C11 {
         st.nontrivial = long_nofp;
         st.probe_n("max_live_above_baseline_KiB", (live_max.max(0) / 1024) as u64);
         st.probe_n("max_alloc_per_packet_KiB", alloc_max / 1024);
+        st.probe_n("sum_of_max_cpu_per_packet_us", cpu_max / 1000);
         if fingerprinted.iter().any(|x| *x) {
             st.probe("contrast_connection_fingerprinted");
         }
